@@ -12,7 +12,13 @@ impl<T> RwLock<T> {
 }
 impl<T: ?Sized> RwLock<T> {
     pub fn read(&self) -> RwLockReadGuard<'_, T> { point(Op::RwRead(self.id)); RwLockReadGuard { l: self } }
-    pub fn write(&self) -> RwLockWriteGuard<'_, T> { point(Op::RwWrite(self.id)); RwLockWriteGuard { l: self } }
+    pub fn write(&self) -> RwLockWriteGuard<'_, T> {
+        point(Op::RwWrite(self.id));
+        // a point INSIDE the critical section: without it a write-locked interval that contains no
+        // other operation would be atomic, and nothing (e.g. a `try_read`) could ever observe it held
+        point(Op::Yield("w-held"));
+        RwLockWriteGuard { l: self }
+    }
     pub fn get_mut(&mut self) -> &mut T { self.data.get_mut() }
 }
 pub struct RwLockReadGuard<'a, T: ?Sized> { l: &'a RwLock<T> }
